@@ -233,42 +233,10 @@ public:
   bool operator<(const String& other) const {return compare(other) < 0;}
   bool operator<=(const String& other) const {return compare(other) <= 0;}
 
-  int compare(const String& other) const
-  {
-    const char* s1 = *this, * s2 = other;
-    for(; *s1 == *s2; ++s1, ++s2)
-      if(!*s1)
-        return 0;
-    return (int)*(const uchar*)s1 - *(const uchar*)s2;
-
-  }
-
-  int compare(const String& other, usize len) const
-  {
-    for(const char* s1 = *this, * s2 = other, * end1 = s1 + len; s1 < end1; ++s1, ++s2)
-      if(!*s1 || *s1 != *s2)
-        return (int)*(const uchar*)s1 - *(const uchar*)s2;
-    return 0;
-  }
-
-  int compareIgnoreCase(const String& other) const
-  {
-    const char* s1 = *this, * s2 = other;
-    char c1, c2;
-    for(; (c1 = toLowerCase(*s1)) == (c2 = toLowerCase(*s2)); ++s1, ++s2)
-      if(!*s1)
-        return 0;
-    return (int)(const uchar&)c1 - (const uchar&)c2;
-  }
-
-  int compareIgnoreCase(const String& other, usize len) const
-  {
-    char c1, c2;
-    for(const char* s1 = *this, * s2 = other, * end1 = s1 + len; s1 < end1; ++s1, ++s2)
-      if((c1 = toLowerCase(*s1)) != (c2 = toLowerCase(*s2)) || !*s1)
-        return (int)(const uchar&)c1 - (const uchar&)c2;
-    return 0;
-  }
+  int compare(const String& other) const {return compare(data->str, data->len, other.data->str, other.data->len);}
+  int compare(const String& other, usize len) const {return compare(data->str, data->len < len ? data->len : len, other.data->str, other.data->len < len ? other.data->len : len);}
+  int compareIgnoreCase(const String& other) const {return compareIgnoreCase(data->str, data->len, other.data->str, other.data->len);}
+  int compareIgnoreCase(const String& other, usize len) const {return compareIgnoreCase(data->str, data->len < len ? data->len : len, other.data->str, other.data->len < len ? other.data->len : len);}
 
   bool equalsIgnoreCase(const String& other) const {return data->len == other.data->len && compareIgnoreCase(other) == 0;}
   bool equalsIgnoreCase(const String& other, usize len) const {return compareIgnoreCase(other, len) == 0;}
@@ -493,6 +461,24 @@ private:
 
   Data* data;
   Data _data;
+
+  // byte strings of the given lengths (the text may contain NUL bytes): the common part decides, then the length
+  static int compare(const char* s1, usize len1, const char* s2, usize len2)
+  {
+    for(const char* end1 = s1 + (len1 < len2 ? len1 : len2); s1 < end1; ++s1, ++s2)
+      if(*s1 != *s2)
+        return (int)*(const uchar*)s1 - *(const uchar*)s2;
+    return len1 < len2 ? -1 : len1 > len2 ? 1 : 0;
+  }
+
+  static int compareIgnoreCase(const char* s1, usize len1, const char* s2, usize len2)
+  {
+    char c1, c2;
+    for(const char* end1 = s1 + (len1 < len2 ? len1 : len2); s1 < end1; ++s1, ++s2)
+      if((c1 = toLowerCase(*s1)) != (c2 = toLowerCase(*s2)))
+        return (int)(const uchar&)c1 - (const uchar&)c2;
+    return len1 < len2 ? -1 : len1 > len2 ? 1 : 0;
+  }
 
   void detach(usize copyLength, usize minCapacity)
   {
